@@ -759,7 +759,7 @@ type c12Out struct {
 	raw     []parquet.Row     // row paths only
 	rawCols [][]parquet.Value // convert-rowgroup-chunks only: the values as served by the chunks
 	extra   []c12Extra        // further L1 failures of the path (page slices, seeks)
-	dup     int               // > 0: the output holds the rows this many times (overrides c12Path.dup)
+	order   []int             // non-nil: the output must hold these rows (global ids: id % number of rows = row index), in this order
 }
 
 // c12Extra is an L1 failure a path found besides the comparison of its output streams.
@@ -1285,11 +1285,14 @@ var c12Paths = []c12Path{
 // rows under the target schema (T: file row group, TB: Buffer); inner nodes are the library's view
 // constructors: merge = MergeRowGroups(kids, target schema) without sorting columns, multi =
 // MultiRowGroup(kids...) (kids under the target schema), conv = ConvertRowGroup(kid, Convert(target,
-// kid schema)). Whatever the shape, reading the root must yield the projected rows of every leaf
-// in leaf order: a view handed to another view constructor is a row group like any other.
+// kid schema)), range = rows [off, off+n) of a leaf as the merge planner cuts them (hook
+// VerifNewRowRange; a conversion goes on top of the range). Whatever the
+// shape, reading the root must yield the projected rows its leaves stand for, in order: a view
+// handed to another view constructor is a row group like any other.
 type c12View struct {
-	op   string
-	kids []*c12View
+	op     string
+	kids   []*c12View
+	off, n int // range: rows [off, off+n) of the kid
 }
 
 func (v *c12View) text() string {
@@ -1299,6 +1302,9 @@ func (v *c12View) text() string {
 	var parts []string
 	for _, k := range v.kids {
 		parts = append(parts, k.text())
+	}
+	if v.op == "range" {
+		return fmt.Sprintf("range[%d,%d)(%s)", v.off, v.off+v.n, parts[0])
 	}
 	return v.op + "(" + strings.Join(parts, ",") + ")"
 }
@@ -1322,19 +1328,64 @@ func (v *c12View) depth() int {
 	return d
 }
 
-// c12GenView draws a view of the given depth budget; tgtOnly: the view must present the target
-// schema (member of a MultiRowGroup); haveT: a file/buffer under the target schema is available.
-func c12GenView(r *rand.Rand, depth int, tgtOnly, haveT bool) *c12View {
+func (v *c12View) count(op string) int {
+	n := 0
+	if v.op == op {
+		n = 1
+	}
+	for _, k := range v.kids {
+		n += k.count(op)
+	}
+	return n
+}
+
+// expect: the rows the view stands for, as global ids (leaf number * nrows + row index); next is
+// the number of leaves seen so far.
+func (v *c12View) expect(nrows int, next *int) []int {
+	if len(v.kids) == 0 {
+		ids := make([]int, nrows)
+		for i := range ids {
+			ids[i] = *next*nrows + i
+		}
+		*next++
+		return ids
+	}
+	var ids []int
+	for _, k := range v.kids {
+		ids = append(ids, k.expect(nrows, next)...)
+	}
+	if v.op == "range" {
+		ids = ids[v.off : v.off+v.n]
+	}
+	return ids
+}
+
+// c12GenView draws a view of the given depth budget over leaves of nrows rows; tgtOnly: the view
+// must present the target schema (member of a MultiRowGroup); haveT: a file/buffer under the
+// target schema is available.
+func c12GenView(r *rand.Rand, depth, nrows int, tgtOnly, haveT bool) *c12View {
 	leaf := func() *c12View {
 		ops := []string{"S", "SB"}
 		if haveT {
 			ops = []string{"S", "SB", "T", "T", "TB"}
 		}
 		op := ops[r.Intn(len(ops))]
-		if tgtOnly && (op == "S" || op == "SB") {
-			return &c12View{op: "conv", kids: []*c12View{{op: op}}}
+		v := &c12View{op: op}
+		// a row range of the leaf, sometimes a range of a range; a conversion goes on top of the
+		// range, which is where rowRangeOf puts the range of a converted row group
+		for n := nrows; n > 1 && r.Intn(4) == 0; {
+			off := r.Intn(n)
+			ln := 1 + r.Intn(n-off)
+			if ln == n {
+				ln--
+			}
+			v = &c12View{op: "range", kids: []*c12View{v}, off: off, n: ln}
+			n = ln
 		}
-		return &c12View{op: op}
+		if tgtOnly && (op == "S" || op == "SB") {
+			v = &c12View{op: "conv", kids: []*c12View{v}}
+		}
+		return v
 	}
 	if depth <= 0 || r.Intn(10) < 4 {
 		return leaf()
@@ -1343,43 +1394,74 @@ func c12GenView(r *rand.Rand, depth int, tgtOnly, haveT bool) *c12View {
 	case x < 6:
 		v := &c12View{op: "merge"}
 		for i, n := 0, 2+r.Intn(2); i < n; i++ {
-			v.kids = append(v.kids, c12GenView(r, depth-1, false, haveT))
+			v.kids = append(v.kids, c12GenView(r, depth-1, nrows, false, haveT))
 		}
 		return v
 	case x < 9:
 		v := &c12View{op: "multi"}
 		for i, n := 0, 2+r.Intn(2); i < n; i++ {
-			v.kids = append(v.kids, c12GenView(r, depth-1, true, haveT))
+			v.kids = append(v.kids, c12GenView(r, depth-1, nrows, true, haveT))
 		}
 		return v
 	}
-	return &c12View{op: "conv", kids: []*c12View{c12GenView(r, depth-1, false, haveT)}}
+	return &c12View{op: "conv", kids: []*c12View{c12GenView(r, depth-1, nrows, false, haveT)}}
 }
 
 // c12RootView: the root is a merge or a multi row group of at least two members.
-func c12RootView(r *rand.Rand, haveT bool) *c12View {
+func c12RootView(r *rand.Rand, nrows int, haveT bool) *c12View {
 	for {
-		v := c12GenView(r, 2+r.Intn(2), false, haveT)
-		if (v.op == "merge" || v.op == "multi") && v.depth() >= 1 {
+		v := c12GenView(r, 2+r.Intn(2), nrows, false, haveT)
+		if v.op == "merge" || v.op == "multi" {
 			return v
 		}
 	}
 }
 
-func (c *c12Case) buildView(v *c12View) (parquet.RowGroup, error) {
+// c12Built is a view as built from the library's constructors, with its text for the Lean model
+// (`L<n>` leaf, `C(..)` a conversion that ConvertRowGroup really installs, `M(..)` multi row
+// group, `R<off>.<len>(..)` row range) and, for every node of that text in preorder, what the
+// library says about the row group: rowGroupReadsChunksInOrder.
+type c12Built struct {
+	rg    parquet.RowGroup
+	lean  string
+	flags []string
+}
+
+func c12ViewFlags(rg parquet.RowGroup) string {
+	return map[bool]string{true: "1", false: "0"}[parquet.VerifReadsChunksInOrder(rg)]
+}
+
+// converted: ConvertRowGroup(b, Convert(target, schema of b)) - the row group itself when the
+// schemas are equal
+func (c *c12Case) converted(b *c12Built) (*c12Built, error) {
+	if parquet.EqualNodes(b.rg.Schema(), c.tgtS) {
+		return b, nil
+	}
+	conv, err := parquet.Convert(c.tgtS, b.rg.Schema())
+	if err != nil {
+		return nil, err
+	}
+	cg := parquet.ConvertRowGroup(b.rg, conv)
+	return &c12Built{rg: cg, lean: "C(" + b.lean + ")", flags: append([]string{c12ViewFlags(cg)}, b.flags...)}, nil
+}
+
+func (c *c12Case) buildView(v *c12View) (*c12Built, error) {
+	leaf := func(rg parquet.RowGroup) (*c12Built, error) {
+		return &c12Built{rg: rg, lean: fmt.Sprintf("L%d", len(c.rows)), flags: []string{c12ViewFlags(rg)}}, nil
+	}
 	switch v.op {
 	case "S":
 		f, err := c.open()
 		if err != nil {
 			return nil, err
 		}
-		return parquet.MultiRowGroup(f.RowGroups()...), nil
+		return leaf(parquet.MultiRowGroup(f.RowGroups()...))
 	case "T":
 		f, err := parquet.OpenFile(bytes.NewReader(c.tfile), int64(len(c.tfile)))
 		if err != nil {
 			return nil, err
 		}
-		return parquet.MultiRowGroup(f.RowGroups()...), nil
+		return leaf(parquet.MultiRowGroup(f.RowGroups()...))
 	case "SB", "TB":
 		schema, rows := c.srcS, c.rows
 		if v.op == "TB" {
@@ -1391,29 +1473,49 @@ func (c *c12Case) buildView(v *c12View) (parquet.RowGroup, error) {
 				return nil, err
 			}
 		}
-		return b, nil
+		return leaf(b)
 	}
-	kids := make([]parquet.RowGroup, len(v.kids))
+	kids := make([]*c12Built, len(v.kids))
 	for i, k := range v.kids {
-		rg, err := c.buildView(k)
+		b, err := c.buildView(k)
 		if err != nil {
 			return nil, err
 		}
-		kids[i] = rg
+		kids[i] = b
 	}
 	switch v.op {
-	case "merge":
-		return parquet.MergeRowGroups(kids, c.tgtS)
-	case "multi":
-		return parquet.MultiRowGroup(kids...), nil
 	case "conv":
-		conv, err := parquet.Convert(c.tgtS, kids[0].Schema())
-		if err != nil {
+		return c.converted(kids[0])
+	case "range":
+		rg := parquet.VerifNewRowRange(kids[0].rg, int64(v.off), int64(v.n))
+		return &c12Built{rg: rg, lean: fmt.Sprintf("R%d.%d(%s)", v.off, v.n, kids[0].lean),
+			flags: append([]string{c12ViewFlags(rg)}, kids[0].flags...)}, nil
+	}
+	rgs := make([]parquet.RowGroup, len(kids))
+	var texts, flags []string
+	for i, k := range kids {
+		rgs[i] = k.rg
+		m := k
+		if v.op == "merge" {
+			// what MergeRowGroups puts into its multi row group
+			var err error
+			if m, err = c.converted(k); err != nil {
+				return nil, err
+			}
+		}
+		texts = append(texts, m.lean)
+		flags = append(flags, m.flags...)
+	}
+	var rg parquet.RowGroup
+	if v.op == "merge" {
+		var err error
+		if rg, err = parquet.MergeRowGroups(rgs, c.tgtS); err != nil {
 			return nil, err
 		}
-		return parquet.ConvertRowGroup(kids[0], conv), nil
+	} else {
+		rg = parquet.MultiRowGroup(rgs...)
 	}
-	return nil, fmt.Errorf("unknown view %q", v.op)
+	return &c12Built{rg: rg, lean: "M(" + strings.Join(texts, ",") + ")", flags: append([]string{c12ViewFlags(rg)}, flags...)}, nil
 }
 
 var errC12NoViews = fmt.Errorf("no composed views for this case")
@@ -1424,17 +1526,18 @@ func c12ViewPath(name string, read func(ctx *core.Ctx, c *c12Case, root parquet.
 		if c.views == nil {
 			return nil, errC12NoViews
 		}
-		root, err := c.buildView(c.views)
+		b, err := c.buildView(c.views)
 		if err != nil {
 			return nil, err
 		}
-		want := len(c.rows) * c.views.leafCount()
-		if n := root.NumRows(); int(n) != want {
-			return nil, fmt.Errorf("the composed view reports %d rows for %d", n, want)
+		next := 0
+		order := c.views.expect(len(c.rows), &next)
+		if n := b.rg.NumRows(); int(n) != len(order) {
+			return nil, fmt.Errorf("the composed view reports %d rows for %d", n, len(order))
 		}
-		out, err := read(ctx, c, root)
+		out, err := read(ctx, c, b.rg)
 		if out != nil {
-			out.dup = c.views.leafCount()
+			out.order = order
 		}
 		return out, err
 	}}
@@ -1926,8 +2029,9 @@ func c12RandomCase(ctx *core.Ctx, d interface {
 		} else {
 			c.tfile = buf.Bytes()
 		}
-		c.views = c12RootView(rand.New(rand.NewSource(r.Int63())), c.tfile != nil)
+		c.views = c12RootView(rand.New(rand.NewSource(r.Int63())), nrows, c.tfile != nil)
 		ctx.Hist("composed-views-leaves", fmt.Sprint(c.views.leafCount()))
+		ctx.Hist("composed-views-row-ranges", fmt.Sprint(c.views.count("range")))
 		ctx.Hist("composed-views-depth", fmt.Sprint(c.views.depth()))
 		ctx.Hist("composed-views-root", c.views.op)
 	}
@@ -2015,18 +2119,23 @@ func c12RandomCase(ctx *core.Ctx, d interface {
 		}
 		want := exp
 		wantRows := nrows
-		dup := p.dup
-		if out != nil && out.dup > 0 {
-			dup = out.dup
-		}
-		if dup > 1 {
+		if p.dup > 1 {
 			want = make([][]gen.Triple, len(exp))
 			for ci := range exp {
-				for k := 0; k < dup; k++ {
+				for k := 0; k < p.dup; k++ {
 					want[ci] = append(want[ci], exp[ci]...)
 				}
 			}
-			wantRows = dup * nrows
+			wantRows = p.dup * nrows
+		}
+		if out != nil && out.order != nil {
+			want = make([][]gen.Triple, len(exp))
+			for _, id := range out.order {
+				for ci := range exp {
+					want[ci] = append(want[ci], expRows[id%nrows][ci]...)
+				}
+			}
+			wantRows = len(out.order)
 		}
 		if err != nil && out == nil {
 			switch {
@@ -2121,6 +2230,43 @@ func c12RandomCase(ctx *core.Ctx, d interface {
 				detail(map[string]any{"go": "ok " + b[goEq] + " " + b[goSame] + " 1 1", "lean": a[0]}))
 		}
 		ctx.Hist("guards", "EqualNodes="+b[goEq]+" SameNodes="+b[goSame]+" ("+tg.mode+")")
+	}
+	// L2: the composed view vs the Lean mirror of rowGroupReadsChunksInOrder on every node, and the harness expectation vs the Lean spec `sem`
+	if c.views != nil {
+		var b *c12Built
+		_, gerr := c12Guard(func() (*c12Out, error) {
+			var err error
+			b, err = c.buildView(c.views)
+			return nil, err
+		})
+		if gerr == nil {
+			next := 0
+			var ids []string
+			for _, id := range c.views.expect(nrows, &next) {
+				ids = append(ids, fmt.Sprint(id))
+			}
+			a, err := d.AskMany([]string{"convert.views " + b.lean})
+			switch {
+			case err != nil:
+				ctx.Fail("L2", "driver-error", err.Error(), nil)
+			default:
+				parts := strings.Split(a[0], " | ")
+				switch {
+				case len(parts) != 3 || !strings.HasPrefix(parts[0], "ok "):
+					ctx.Fail("L2", "lean-rejects-case", "convert.views: "+a[0], detail(map[string]any{"lean_view": b.lean}))
+				case strings.TrimPrefix(parts[0], "ok ") != strings.Join(b.flags, ","):
+					ctx.Fail("L2", "views-read-chunks-in-order-vs-lean-mirror", "rowGroupReadsChunksInOrder of the nodes of a composed view (preorder) and the Lean mirror inOrder disagree",
+						detail(map[string]any{"lean_view": b.lean, "go": strings.Join(b.flags, ","), "lean": strings.TrimPrefix(parts[0], "ok ")}))
+				case parts[1] != "1":
+					ctx.Fail("L2", "lean-view-mirror-differs-from-spec", "the Lean mirror of Rows() differs from the spec on a composition the harness takes for well formed",
+						detail(map[string]any{"lean_view": b.lean, "lean": a[0]}))
+				case parts[2] != strings.Join(ids, ","):
+					ctx.Fail("L2", "harness-view-expectation-vs-lean-spec", "the rows the harness expects from the composed view and the Lean spec `sem` disagree",
+						detail(map[string]any{"lean_view": b.lean, "harness": strings.Join(ids, ","), "lean": parts[2]}))
+				}
+				ctx.Hist("composed-views-vs-lean", "compared")
+			}
+		}
 	}
 	reqs := make([]string, nrows)
 	for i := range reqs {
